@@ -315,5 +315,11 @@ def run(ctx):
         for inst, v in sorted(shortwrite.writeop_sites(db, rep, prog, 'qmail-remote.c', op).items()):
             r3.check(v[0], inst, v[1], v[2], v[3])
     r3.expect_min(3)
-    rep.assume('substdio_get(&ssin,&ch,1) yields the message bytes in order; substdio_put(&smtpto,...) sends bytes in order',
+    r4 = rep.rule('C06.4-message-read-side', 'R-TABLE', 'substdio_get/substdio_feed under blast(): a read error is -1 (never end of file), a short read is moved to the end of the buffer intact (byte_copyr on overlapping regions), so the encoder sees exactly the bytes of the queue file')
+    from rules import libtab
+    for f_ in (libtab.substdio_read_sites, libtab.byte_copyr_sites):
+        for inst, v in sorted(f_(db, rep, prog).items()):
+            r4.check(v[0], inst, v[1], v[2], v[3])
+    r4.expect_min(4)
+    rep.assume('substdio_put(&smtpto,...) sends bytes in order',
                'receiver model: RFC 5321 section 4.5.2 (CRLF line ends, leading dot removed, CRLF.CRLF ends the data)')
